@@ -107,18 +107,32 @@ fn roundtrip_case(nodes: &[f64], nvars: usize, prec: usize, dir: &std::path::Pat
     let path = dir.join(format!("mesh_{}_{}.dat", tag, prec));
     let ps = path.to_str().unwrap();
     m.output(ps, prec);
-    // read into a mesh of a different node count: read() overwrites the nodes
-    let mut r = Mesh1D::<f64, f64>::new(Vector::create(vec![0.0, 1.0]), nvars);
-    r.read(ps);
-    let _ = std::fs::remove_file(&path);
-    ensure!(r.nnodes() == n, "read(): {} nodes expected {}", r.nnodes(), n);
+    // read into meshes of a different node count - fewer, equally many and MORE nodes than the file, the latter holding stale data -
+    // and a second time into the same object: read() overwrites the nodes, nothing of the old mesh may survive
     let tol = 0.5 * 10f64.powi(-(prec as i32)) * 1.0000001;
-    for i in 0..n {
-        ensure!((r.coord(i) - nodes[i]).abs() <= tol, "node {} read back as {} expected {} (precision {})", i, r.coord(i), nodes[i], prec);
-        for v in 0..nvars {
-            ensure!((r[i][v] - m[i][v]).abs() <= tol, "node {} var {} read back as {} expected {} (precision {})", i, v, r[i][v], m[i][v], prec);
+    for target in [2usize, n, n + 3] {
+        let tn: Vec<f64> = (0..target).map(|i| -7.0 + 1.5 * i as f64).collect();
+        let mut r = Mesh1D::<f64, f64>::new(Vector::create(tn), nvars);
+        for i in 0..target {
+            for v in 0..nvars {
+                r[i][v] = 1000.0 + (i * 10 + v) as f64;
+            }
+        }
+        for pass in 0..2 {
+            r.read(ps);
+            ensure!(r.nnodes() == n && r.nodes().size() == n, "read() into a mesh of {} nodes (pass {}): {} nodes expected {}", target, pass, r.nnodes(), n);
+            for i in 0..n {
+                ensure!((r.coord(i) - nodes[i]).abs() <= tol, "node {} read back as {} expected {} (precision {}, target of {} nodes)", i, r.coord(i), nodes[i], prec, target);
+                for v in 0..nvars {
+                    ensure!((r[i][v] - m[i][v]).abs() <= tol, "node {} var {} read back as {} expected {} (precision {}, target of {} nodes)", i, v, r[i][v], m[i][v], prec, target);
+                }
+            }
+            // a consumer of the whole mesh: the quadrature runs over the nodes of the file only
+            let scale = (0..n).map(|i| m[i][0].abs()).fold(1.0, f64::max) * (nodes[n - 1] - nodes[0]).abs().max(1.0);
+            ensure!((r.trapezium(0) - m.trapezium(0)).abs() <= 4.0 * (n as f64) * tol * scale, "trapezium after read() into a mesh of {} nodes: {} expected {}", target, r.trapezium(0), m.trapezium(0));
         }
     }
+    let _ = std::fs::remove_file(&path);
     Ok(())
 }
 
@@ -524,6 +538,53 @@ fn main() {
                         for i in 0..n {
                             let g = m.get_interpolated_vars(nodes[i]);
                             ensure!(g.size() == 1 && g[0] == data[i], "interpolation at node {} (x = {}) = {:?} but the stored value is {:?}", i, nodes[i], g.vec, data[i]);
+                        }
+                        Ok(())
+                    });
+                },
+            );
+        }
+    }
+    // grids far from the origin: the 1e-7 snapping window around a node is absolute (the statement gives 1e-6 as the distance from which
+    // the containing cell's line is demanded), so a point 2^-15 or 2^-19 to either side of an interior node belongs to its own cell
+    // whatever the size of the coordinates
+    {
+        let origins: [f64; 4] = [1024.0, -1048576.0, 65536.0, 0.0];
+        let sp: [f64; 3] = [0.25, 1.0, 2.0];
+        for n in 3..=4usize {
+            let words = pow(3, (n - 1) as u32);
+            ctx.lattice(
+                &format!("1-D meshes far from the origin: {} nodes, origins {{1024,-2^20,2^16,0}} x every spacing word over {{1/4,1,2}}: points 2^-15 and 2^-19 to either side of every interior node", n),
+                words * origins.len() as u64,
+                |idx| format!("origin#{} word#{}", idx / words, idx % words),
+                |idx, acc| {
+                    let mut d = vec![0usize; n - 1];
+                    digits_uniform(idx % words, 3, &mut d);
+                    let mut nodes: Vec<f64> = vec![origins[(idx / words) as usize]];
+                    for k in 0..n - 1 {
+                        let last = *nodes.last().unwrap();
+                        nodes.push(last + sp[d[k]]);
+                    }
+                    if nodes[0].abs() > 100.0 {
+                        acc.nontriv("grid with coordinates beyond 1e3");
+                    }
+                    judge(acc, idx, || format!("far grid {:?}", nodes), || {
+                        let mut m = Mesh1D::<f64, f64>::new(Vector::create(nodes.clone()), 1);
+                        // slopes differ from cell to cell: 0, 0, 2048, -512
+                        let data: [f64; 4] = [0.0, 0.0, 2048.0, -512.0];
+                        for i in 0..n {
+                            m[i][0] = data[i];
+                        }
+                        for i in 1..n - 1 {
+                            for off in [2f64.powi(-15), -(2f64.powi(-15)), 2f64.powi(-19), -(2f64.powi(-19))] {
+                                let x = nodes[i] + off;
+                                let cell = if off > 0.0 { i } else { i - 1 };
+                                let h = nodes[cell + 1] - nodes[cell];
+                                let t = (x - nodes[cell]) / h;
+                                let want: f64 = data[cell] + (data[cell + 1] - data[cell]) * t;
+                                let g = m.get_interpolated_vars(x);
+                                ensure!(g.size() == 1 && (g[0] - want).abs() <= 1e-9 * want.abs().max(1.0), "interpolation at x = node {} {:+e} = {:?} but the line of cell {} gives {}", i, off, g.vec, cell, want);
+                            }
                         }
                         Ok(())
                     });
